@@ -172,6 +172,8 @@ def drive_gen(fn, ops, log):
             obs.append(outcome(lambda: g.throw(UserErr(p))))
         elif op == 4:
             obs.append(outcome(lambda: g.throw(UserBase(p))))
+        elif op == 5:
+            obs.append(outcome(lambda: g.throw(GeneratorExit())))     # thrown in explicitly: not the same as close()
         else:
             obs.append(outcome(lambda: g.close()))
         log.append(('after-op', len(obs)))      # interleaving of finalisation with the caller's operations is observable
@@ -192,6 +194,8 @@ def _astep(aw):
             return tuple(seen) + (('astop',),)
         except (UserErr, UserBase) as e:
             return tuple(seen) + (('raise', type(e).__name__, e.args),)
+        except GeneratorExit:
+            return tuple(seen) + (('raise', 'GeneratorExit'),)
         except (BeartypeCallHintReturnViolation, VerifError):
             return tuple(seen) + (('return-violation',),)
         except RuntimeError as e:
@@ -215,6 +219,8 @@ def drive_agen(fn, ops, log):
             obs.append(_astep(g.athrow(UserErr(p))))
         elif op == 4:
             obs.append(_astep(g.athrow(UserBase(p))))
+        elif op == 5:
+            obs.append(_astep(g.athrow(GeneratorExit())))             # thrown in explicitly: not the same as aclose()
         else:
             obs.append(_astep(g.aclose()))
         log.append(('after-op', len(obs)))
@@ -331,7 +337,7 @@ def spec(kind, n_script, n_ops, confkw, tag, ann=None, host='function'):
         pre += [f'0 <= k{i} <= 2', f'-1 <= p{i} <= 3']
     for i in range(n_ops):
         params += [(f'o{i}', 'int'), (f'q{i}', 'int')]
-        pre += [f'0 <= o{i} <= 4', f'-1 <= q{i} <= 2']
+        pre += [f'0 <= o{i} <= 5', f'-1 <= q{i} <= 2']
     script = '[' + ', '.join(f'(k{i}, p{i})' for i in range(n_script)) + ']'
     ops = '[' + ', '.join(f'(o{i}, q{i})' for i in range(n_ops)) + ']'
     body = f'return compare({kind!r}, {script}, {ops})'
